@@ -101,12 +101,17 @@ def run(ck):
             params = None              # the library's default leaf model (what `xRFM()` without arguments uses): l2_high_dim, 5 rounds, best iterate
             kern = 'l2_high_dim'
         xr.seed_all(1000 + i + ck.seed)
+        # every eighth fit (i % 8 == 3): all splits along ONE axis with a negative, non-unit coefficient (an axis-aligned direction whose sign and scale matter)
+        axis_kw = {}
+        if i % 8 == 3:
+            fv = np.zeros(d, dtype=np.float32); fv[d - 1] = -1.5
+            axis_kw = dict(split_method='fixed_vector', fixed_vector=torch.tensor(fv))
         model = xr.xRFM(rfm_params=params, max_leaf_size=L, n_trees=n_trees, overlap_fraction=f, verbose=False,
-                        split_method=('random_global_agop' if i % 8 == 5 else ['top_vector_agop_on_subset', 'random_pca', 'linear', 'pca'][i % 4]),
+                        **(axis_kw or dict(split_method=('random_global_agop' if i % 8 == 5 else ['top_vector_agop_on_subset', 'random_pca', 'linear', 'pca'][i % 4]))),
                         use_temperature_tuning=False, classification_mode=cmode, refill_size=20,
                         n_tree_iters=(1 if i % 8 == 5 else 0))
         desc = dict(i=i, kernel=kern, task=task, cmode=cmode, n_trees=n_trees, n=n, L=L, d=d, f=f, diag=diag, bw=bwmode,
-                    exponent=exponent, default_params=(params is None), seed=ck.seed)
+                    exponent=exponent, default_params=(params is None), axis_aligned_negative_split=bool(i % 8 == 3), seed=ck.seed)
         try:
             with xr.quiet():
                 model.fit(torch.tensor(X), torch.tensor(y), torch.tensor(Xv), torch.tensor(yv))
